@@ -257,19 +257,90 @@ theorem fold_counted_recount {γ} [BEq γ] [LawfulBEq γ] (k : Nat) (tgts : List
 example : (foldCounted 2 [0, 1, 1, 0, 1]).map (fun cps => cps.map fun c => (c.1.2 1, c.2.2 1)) =
     some [(2, 1), (2, 1)] := by decide
 
+/-! ## `fold` on the dataset: ONE fold size (from the targets) for records and targets -/
+
+/-- **`fold(k)` as the code runs it** — fold size `targets.len_of(Axis(0)) / k` applied to both
+containers, the two chunk vectors through the same loop: for every dataset whose records and
+targets have the same number of rows and every `2 ≤ k ≤ n` the call returns, and pair `i` is
+((records outside block `i`, targets outside block `i`), (records of block `i`, targets of block
+`i`)) — the SAME row indices on both sides. -/
+theorem foldDataset_spec {α β} (k : Nat) (rs : List α) (ts : List β)
+    (hlen : rs.length = ts.length) (hk : 2 ≤ k) (hn : k ≤ rs.length) :
+    foldDataset k rs ts = some ((List.range k).map fun i =>
+      ((rs.take (i * (rs.length / k)) ++ rs.drop ((i + 1) * (rs.length / k)),
+        ts.take (i * (rs.length / k)) ++ ts.drop ((i + 1) * (rs.length / k))),
+       ((rs.drop (i * (rs.length / k))).take (rs.length / k),
+        (ts.drop (i * (rs.length / k))).take (rs.length / k)))) := by
+  have hk0 : k ≠ 0 := by omega
+  have e1 : foldWith (ts.length / k) k rs = foldPairs k rs := by
+    rw [foldPairs_eq_foldWith k rs hk0, hlen]
+  have e2 : foldWith (ts.length / k) k ts = foldPairs k ts := (foldPairs_eq_foldWith k ts hk0).symm
+  unfold foldDataset
+  simp only [hk0, if_false]
+  rw [e1, e2, fold_spec k rs hk hn, fold_spec k ts hk (hlen ▸ hn)]
+  simp only [List.zip_map', List.map_map, ← hlen]
+  rfl
+
+example : foldDataset 2 [0, 1, 2, 3, 4] ["a", "b", "c", "d", "e"] =
+    some [(([2, 3, 4], ["c", "d", "e"]), ([0, 1], ["a", "b"])),
+          (([0, 1, 4], ["a", "b", "e"]), ([2, 3], ["c", "d"]))] := by decide
+
+/-- the defect fixed in c67351f is expressible: a fold size taken from the number of target
+CELLS (`n * t`) instead of rows leaves a single chunk and the call panics -/
+example : foldWith (3 * 2 / 2) 2 [0, 1, 2] = none := by decide
+
+/-- **every record stays attached to its own target** through `fold` as the code runs it: the
+two sides of every part have the same number of rows, and zipping them gives exactly the fold
+of the zipped (record, target) rows — with `fold_partition` on the zipped rows: each pair is a
+split of the multiset of (record, target) pairs. -/
+theorem foldDataset_rows_stay_paired {α β} (k : Nat) (rs : List α) (ts : List β)
+    (hlen : rs.length = ts.length) (hk : 2 ≤ k) (hn : k ≤ rs.length) :
+    ∃ ps, foldDataset k rs ts = some ps ∧ ps.length = k ∧
+      (∀ q ∈ ps, q.1.1.length = q.1.2.length ∧ q.2.1.length = q.2.2.length) ∧
+      foldPairs k (rs.zip ts) = some (ps.map fun q => (q.1.1.zip q.1.2, q.2.1.zip q.2.2)) := by
+  refine ⟨_, foldDataset_spec k rs ts hlen hk hn, by simp, ?_, ?_⟩
+  · intro q hq
+    simp only [List.mem_map, List.mem_range] at hq
+    obtain ⟨i, _, rfl⟩ := hq
+    simp [hlen]
+  · have hz : (rs.zip ts).length = rs.length := by simp [hlen]
+    rw [fold_spec k (rs.zip ts) hk (hz ▸ hn), List.map_map]
+    congr 1
+    apply List.map_congr_left
+    intro i _
+    simp only [Function.comp, hz]
+    simp only [List.zip, List.take_zipWith, List.drop_zipWith]
+    rw [List.zipWith_append (by simp [hlen])]
+
+/-- **each pair of `fold(k)` is a split of the multiset of (record, target) pairs** -/
+theorem foldDataset_partition {α β} (k : Nat) (rs : List α) (ts : List β)
+    (hlen : rs.length = ts.length) (hk : 2 ≤ k) (hn : k ≤ rs.length)
+    (ps : List ((List α × List β) × (List α × List β))) (h : foldDataset k rs ts = some ps) :
+    ps.length = k ∧ ∀ q ∈ ps, (q.1.1.zip q.1.2 ++ q.2.1.zip q.2.2).Perm (rs.zip ts) := by
+  obtain ⟨ps', h', hl, _, hz⟩ := foldDataset_rows_stay_paired k rs ts hlen hk hn
+  rw [h] at h'
+  cases h'
+  have hzl : (rs.zip ts).length = rs.length := by simp [hlen]
+  obtain ⟨_, hp⟩ := fold_partition k (rs.zip ts) hk (by omega) _ hz
+  exact ⟨hl, fun q hq => hp _ (List.mem_map.mpr ⟨q, hq, rfl⟩)⟩
+
+example : (([2, 3, 4].zip ["c", "d", "e"]) ++ ([0, 1].zip ["a", "b"])).Perm
+    ([0, 1, 2, 3, 4].zip ["a", "b", "c", "d", "e"]) := by decide
+
 /-! ## `iter_fold`: in-place block swapping on the flat buffers -/
 
 /-- **restoration + what the closure sees**, for every `n`, every `0 < k ≤ n`, every
 record width `p` and target width `t`: `iter_fold` succeeds, the buffers are
 handed back exactly as they were, fold `i`'s training view is the buffer with
-blocks `0` and `i` exchanged minus its first block, and the validation views are
-the first `k` chunks of the (restored) buffers. -/
+blocks `0` and `i` exchanged minus its first block, and validation view `i` is sample
+block `i` (`n / k` whole samples) of the (restored) buffers.  Holds for `p = 0` / `t = 0` too. -/
 theorem iterFold_spec {α β} (n k p t : Nat) (recs : List α) (tgts : List β)
     (hk : 0 < k) (hn : k ≤ n) (hr : recs.length = n * p) (hg : tgts.length = n * t) :
     iterFold n k p t recs tgts = some
       { trains := (List.range k).map fun i =>
           ((swapBlock recs i (n / k) p).drop (n / k * p), (swapBlock tgts i (n / k) t).drop (n / k * t)),
-        valids := ((chunks (n / k * p) recs).take k).zip ((chunks (n / k * t) tgts).take k),
+        valids := (List.range k).map fun i =>
+          ((recs.drop (i * (n / k * p))).take (n / k * p), (tgts.drop (i * (n / k * t))).take (n / k * t)),
         finalR := recs, finalT := tgts } := by
   have hkn : k * (n / k) ≤ n := Nat.mul_div_le n k
   have h1 : k * (n / k * p) ≤ recs.length := by
@@ -279,6 +350,7 @@ theorem iterFold_spec {α β} (n k p t : Nat) (recs : List α) (tgts : List β)
   unfold iterFold
   simp only [show ¬ (k = 0 ∨ n < k) by omega, if_false]
   rw [iterGo_spec (n / k) p t k recs tgts h1 h2 k 0 (by omega)]
+  simp only [sampleChunks_zip_take n (n / k) p t k recs tgts (le_div_div n k hk hn)]
   simp
 
 example : (iterFold 5 2 1 1 [0, 1, 2, 3, 4] [10, 11, 12, 13, 14]).map (·.trains) =
@@ -347,35 +419,17 @@ theorem iterFoldLayout_std {α β} (n k p t : Nat) (recs : List α) (tgts : List
 example : (iterFoldLayout true true 4 2 1 1 [0, 1, 2, 3] [10, 11, 12, 13]).map (·.finalR) =
     some [0, 1, 2, 3] := by decide
 
-/-- **validation views are whole rows**: on a row-major buffer whose rows are `p > 0` cells wide,
-chunk `i` of `sample_chunks(fs)` is exactly rows `[i*fs, (i+1)*fs)` (flattened) -/
-theorem iterFold_valid_rows {α} (rows : List (List α)) (p i fs : Nat) (hp : 0 < p) (hfs : 0 < fs)
-    (hrow : ∀ r ∈ rows, r.length = p) (hlen : (i + 1) * fs ≤ rows.length) :
-    (chunks (fs * p) rows.flatten)[i]? = some ((rows.drop (i * fs)).take fs).flatten := by
-  have hw : 0 < fs * p := Nat.mul_pos hfs hp
-  have hflat : rows.flatten.length = rows.length * p := by
-    clear hlen
-    induction rows with
-    | nil => simp
-    | cons r rs ih =>
-      have hr : r.length = p := hrow r (by simp)
-      have := ih (fun x hx => hrow x (by simp [hx]))
-      simp only [List.flatten_cons, List.length_append, List.length_cons, this, hr, Nat.succ_mul]
-      omega
-  have hle : (i + 1) * (fs * p) ≤ rows.flatten.length := by
-    rw [hflat, ← Nat.mul_assoc]; exact Nat.mul_le_mul_right _ hlen
-  have hi : i < (rows.flatten.length + fs * p - 1) / (fs * p) := by
-    have : i + 1 ≤ (rows.flatten.length + fs * p - 1) / (fs * p) := by
-      rw [Nat.le_div_iff_mul_le hw]; omega
-    omega
-  rw [chunks_getElem? _ _ _ hi]
-  congr 1
+/-- **validation views are whole rows**: on a row-major buffer whose rows are `p` cells wide,
+sample block `i` of `sample_chunks(fs)` is exactly rows `[i*fs, (i+1)*fs)` (flattened) -/
+theorem iterFold_valid_rows {α} (rows : List (List α)) (p i fs : Nat)
+    (hrow : ∀ r ∈ rows, r.length = p) :
+    (rows.flatten.drop (i * (fs * p))).take (fs * p) = ((rows.drop (i * fs)).take fs).flatten := by
   have e1 : i * (fs * p) = (i * fs) * p := by rw [Nat.mul_assoc]
   rw [e1, drop_flatten_uniform rows p _ hrow,
     take_flatten_uniform _ p _ (fun r hr => hrow r (List.mem_of_mem_drop hr))]
 
-example : (chunks (2 * 2) [[0, 1], [2, 3], [4, 5], [6, 7], [8, 9]].flatten)[1]? =
-    some (([[0, 1], [2, 3], [4, 5], [6, 7], [8, 9]].drop (1 * 2)).take 2).flatten := by decide
+example : (([[0, 1], [2, 3], [4, 5], [6, 7], [8, 9]] : List (List Nat)).flatten.drop (1 * (2 * 2))).take (2 * 2) =
+    (([[0, 1], [2, 3], [4, 5], [6, 7], [8, 9]].drop (1 * 2)).take 2).flatten := by decide
 
 /-- **fold `i` of `iter_fold` is a split of the dataset**: the rows the closure sees together with
 validation block `i` are a permutation of all rows -/
@@ -410,6 +464,65 @@ theorem iterFold_rows_stay_paired {α β} (rs : List α) (ts : List β) (i fs : 
 
 example : swapBlock ([1, 2, 3, 4, 5].zip [10, 20, 30, 40, 50]) 1 2 1 =
     (swapBlock [1, 2, 3, 4, 5] 1 2 1).zip (swapBlock [10, 20, 30, 40, 50] 1 2 1) := by decide
+
+/-- **`iter_fold` returns iff `0 < k ≤ n` and both arrays pass `as_slice_mut`** — the three
+documented panics, exactly -/
+theorem iterFoldLayout_guard_exact {α β} (stdR stdT : Bool) (n k p t : Nat) (recs : List α) (tgts : List β) :
+    (iterFoldLayout stdR stdT n k p t recs tgts).isSome = true ↔
+      (0 < k ∧ k ≤ n ∧ stdR = true ∧ stdT = true) := by
+  unfold iterFoldLayout iterFold
+  by_cases hg : k = 0 ∨ n < k
+  · simp only [hg, if_true]
+    constructor
+    · intro h; simp at h
+    · intro h; omega
+  · cases stdR <;> cases stdT <;> simp [hg] <;> omega
+
+example : (iterFoldLayout true true 3 1 1 1 [0, 1, 2] [10, 11, 12]).isSome = true ∧
+    (iterFoldLayout true true 3 0 1 1 [0, 1, 2] [10, 11, 12]).isSome = false ∧
+    (iterFoldLayout true true 3 4 1 1 [0, 1, 2] [10, 11, 12]).isSome = false := by decide
+
+/-- **`iter_fold` on a dataset of `n` samples, in terms of its ROWS** (composition of
+`iterFold_spec`, `iterFold_train_rows`, `iterFold_rows_stay_paired`, `iterFold_valid_rows`): for
+every `0 < k ≤ n`, records `p` wide and targets `t` wide, the call returns, the buffers are
+handed back unchanged, and for every fold `i < k` the training view the closure sees consists of
+whole record rows `ra` and whole target rows `ta`, equally many, whose pairs `(ra[j], ta[j])` are a
+permutation of the (record, target) pairs outside block `i`; the validation view is block `i` of
+the records with block `i` of the targets. -/
+theorem iterFold_rows_spec {α β} (n k p t : Nat) (rr : List (List α)) (tr : List (List β))
+    (hk : 0 < k) (hn : k ≤ n) (hrl : rr.length = n) (htl : tr.length = n)
+    (hrw : ∀ r ∈ rr, r.length = p) (htw : ∀ r ∈ tr, r.length = t) :
+    ∃ o, iterFold n k p t rr.flatten tr.flatten = some o ∧
+      o.finalR = rr.flatten ∧ o.finalT = tr.flatten ∧
+      ∀ i, i < k → ∃ (ra : List (List α)) (ta : List (List β)),
+        o.trains[i]? = some (ra.flatten, ta.flatten) ∧ ra.length = ta.length ∧
+        (ra.zip ta).Perm ((rr.zip tr).take (i * (n / k)) ++ (rr.zip tr).drop ((i + 1) * (n / k))) ∧
+        o.valids[i]? = some (((rr.drop (i * (n / k))).take (n / k)).flatten,
+                             ((tr.drop (i * (n / k))).take (n / k)).flatten) := by
+  have hfr : rr.flatten.length = n * p := by rw [flatten_length_uniform rr p hrw, hrl]
+  have hft : tr.flatten.length = n * t := by rw [flatten_length_uniform tr t htw, htl]
+  refine ⟨_, iterFold_spec n k p t _ _ hk hn hfr hft, rfl, rfl, ?_⟩
+  intro i hi
+  have hkn : k * (n / k) ≤ n := Nat.mul_div_le n k
+  have hle : (i + 1) * (n / k) ≤ n := Nat.le_trans (Nat.mul_le_mul_right _ (by omega)) hkn
+  have hler : (i + 1) * (n / k) ≤ rr.length := by rw [hrl]; exact hle
+  have hlet : (i + 1) * (n / k) ≤ tr.length := by rw [htl]; exact hle
+  refine ⟨(swapBlock rr i (n / k) 1).drop (n / k), (swapBlock tr i (n / k) 1).drop (n / k), ?_, ?_, ?_, ?_⟩
+  · simp only [List.getElem?_map, List.getElem?_range hi, Option.map_some]
+    rw [(iterFold_train_rows rr p i (n / k) hrw hler).1, (iterFold_train_rows tr t i (n / k) htw hlet).1]
+  · rw [(swapBlock_drop_perm rr i (n / k) hler).length_eq, (swapBlock_drop_perm tr i (n / k) hlet).length_eq]
+    simp [hrl, htl]
+  · have hz : (i + 1) * (n / k) ≤ (rr.zip tr).length := by simp [hrl, htl]; exact hle
+    have h := swapBlock_drop_perm (rr.zip tr) i (n / k) hz
+    rw [iterFold_rows_stay_paired rr tr i (n / k) (hrl.trans htl.symm)] at h
+    simp only [List.zip, List.drop_zipWith] at h ⊢
+    exact h
+  · simp only [List.getElem?_map, List.getElem?_range hi, Option.map_some]
+    rw [iterFold_valid_rows rr p i (n / k) hrw, iterFold_valid_rows tr t i (n / k) htw]
+
+example : (iterFold 5 2 2 1 ([[0, 1], [2, 3], [4, 5], [6, 7], [8, 9]] : List (List Nat)).flatten
+    ([[10], [11], [12], [13], [14]] : List (List Nat)).flatten).map (fun o => (o.trains[1]?, o.valids[1]?)) =
+    some (some ([0, 1, 2, 3, 8, 9], [10, 11, 14]), some ([4, 5, 6, 7], [12, 13])) := by decide
 
 /-! ## `cross_validate` -/
 
@@ -579,7 +692,8 @@ theorem cv_on_spec {α β ε μ σ} [Add σ] [Div σ] [OfNat σ 0] [NatCast σ]
       { result := crossValidate k params.length nt
           ((((List.range k).map fun i =>
               ((swapBlock recs i (n / k) p).drop (n / k * p), (swapBlock tgts i (n / k) t).drop (n / k * t))).zip
-            (((chunks (n / k * p) recs).take k).zip ((chunks (n / k * t) tgts).take k))).map
+            ((List.range k).map fun i =>
+              ((recs.drop (i * (n / k * p))).take (n / k * p), (tgts.drop (i * (n / k * t))).take (n / k * t)))).map
             fun (tr, va) => scriptOf (params.map fun f => f tr) (fun md => score md va)),
         finalR := recs, finalT := tgts } := by
   unfold crossValidateOn
@@ -618,8 +732,23 @@ example : (crossValidateOn (ε := String) (σ := Nat) true true 4 2 1 1 [0, 1, 2
     (fun o => (o.result, o.finalR, o.finalT)) =
     some (.error "fit:1", [0, 1, 2, 3], [10, 11, 12, 13]) := by decide
 
+/-- the documented panics of `iter_fold` are those of `cross_validate`: it returns (scores or an
+error) iff `0 < k ≤ n` and both arrays pass `as_slice_mut` -/
+theorem cv_on_guard_exact {α β ε μ σ} [Add σ] [Div σ] [OfNat σ 0] [NatCast σ]
+    (stdR stdT : Bool) (n k p t : Nat) (recs : List α) (tgts : List β)
+    (params : List (List α × List β → Except ε μ))
+    (score : μ → List α × List β → Except ε (List σ)) (nt : Nat) :
+    (crossValidateOn stdR stdT n k p t recs tgts params score nt).isSome = true ↔
+      (0 < k ∧ k ≤ n ∧ stdR = true ∧ stdT = true) := by
+  rw [← iterFoldLayout_guard_exact stdR stdT n k p t recs tgts]
+  unfold crossValidateOn
+  cases iterFoldLayout stdR stdT n k p t recs tgts <;> simp
+
+example : (crossValidateOn (ε := String) (σ := Nat) true false 4 2 1 1 [0, 1, 2, 3] [10, 11, 12, 13]
+    [fun tr => .ok tr.1.sum] (fun md va => .ok [md + va.2.sum]) 1).isSome = false := by decide
+
 /-- **the full clause on the real calling form**: for every `0 < k ≤ n`, every record / target width
-`p, t > 0`, every list of parameter sets and every predict-then-eval function: if model `j` fitted
+`p, t` (zero included), every list of parameter sets and every predict-then-eval function: if model `j` fitted
 on fold `i`'s training view is `md i j` and its evaluation on validation block `i` is the row
 `sc i j` (`nt` entries), then `cross_validate` returns a `models × nt` table whose entry `(j, c)` is
 the arithmetic mean over the `k` folds of `sc i j [c]`, and the dataset is handed back unchanged.
@@ -627,62 +756,40 @@ the arithmetic mean over the `k` folds of `sc i j [c]`, and the dataset is hande
 theorem cv_on_is_mean {α β ε μ σ} [Field σ] (n k p t : Nat) (recs : List α) (tgts : List β)
     (params : List (List α × List β → Except ε μ))
     (score : μ → List α × List β → Except ε (List σ)) (nt : Nat)
-    (hk : 0 < k) (hn : k ≤ n) (hp : 0 < p) (ht : 0 < t)
+    (hk : 0 < k) (hn : k ≤ n)
     (hr : recs.length = n * p) (hg : tgts.length = n * t)
     (md : Nat → Nat → μ) (sc : Nat → Nat → List σ)
     (hfit : ∀ i, i < k → ∀ j (hj : j < params.length),
       params[j] ((swapBlock recs i (n / k) p).drop (n / k * p), (swapBlock tgts i (n / k) t).drop (n / k * t))
         = .ok (md i j))
     (hsc : ∀ i, i < k → ∀ j, j < params.length →
-      score (md i j) (((chunks (n / k * p) recs)[i]?).getD [], ((chunks (n / k * t) tgts)[i]?).getD [])
+      score (md i j) ((recs.drop (i * (n / k * p))).take (n / k * p), (tgts.drop (i * (n / k * t))).take (n / k * t))
         = .ok (sc i j))
     (hshape : ∀ i, i < k → ∀ j, j < params.length → (sc i j).length = nt) :
     ∃ o res, crossValidateOn true true n k p t recs tgts params score nt = some o ∧
       o.result = .ok res ∧ o.finalR = recs ∧ o.finalT = tgts ∧ res.length = params.length ∧
       ∀ j c, j < params.length → c < nt →
         entry res j c = ((List.range k).map fun i => ((sc i j)[c]?).getD 0).sum / (k : σ) := by
-  have hfs : 0 < n / k := Nat.div_pos hn hk
-  have hkn : k * (n / k) ≤ n := Nat.mul_div_le n k
-  -- the validation chunk lists have exactly k entries
-  have hlenR : ((chunks (n / k * p) recs).take k).length = k := by
-    rw [List.length_take, chunks_length, Nat.min_eq_left]
-    rw [Nat.le_div_iff_mul_le (Nat.mul_pos hfs hp)]
-    have : k * (n / k * p) ≤ recs.length := by
-      rw [hr, ← Nat.mul_assoc]; exact Nat.mul_le_mul_right _ hkn
-    have := Nat.mul_pos hfs hp
-    omega
-  have hlenT : ((chunks (n / k * t) tgts).take k).length = k := by
-    rw [List.length_take, chunks_length, Nat.min_eq_left]
-    rw [Nat.le_div_iff_mul_le (Nat.mul_pos hfs ht)]
-    have : k * (n / k * t) ≤ tgts.length := by
-      rw [hg, ← Nat.mul_assoc]; exact Nat.mul_le_mul_right _ hkn
-    have := Nat.mul_pos hfs ht
-    omega
-  have hvR := eq_map_range_getD _ k [] hlenR
-  have hvT := eq_map_range_getD _ k [] hlenT
   set m := params.length with hm
   -- the folds, one per index
   let folds := (List.range k).map fun i =>
     scriptOf (params.map fun f => f ((swapBlock recs i (n / k) p).drop (n / k * p), (swapBlock tgts i (n / k) t).drop (n / k * t)))
-      (fun mdl => score mdl (((chunks (n / k * p) recs)[i]?).getD [], ((chunks (n / k * t) tgts)[i]?).getD []))
+      (fun mdl => score mdl ((recs.drop (i * (n / k * p))).take (n / k * p), (tgts.drop (i * (n / k * t))).take (n / k * t)))
   have hspec := cv_on_spec n k p t recs tgts params score nt hk hn hr hg
   have hfolds : ((((List.range k).map fun i =>
               ((swapBlock recs i (n / k) p).drop (n / k * p), (swapBlock tgts i (n / k) t).drop (n / k * t))).zip
-            (((chunks (n / k * p) recs).take k).zip ((chunks (n / k * t) tgts).take k))).map
+            ((List.range k).map fun i =>
+              ((recs.drop (i * (n / k * p))).take (n / k * p), (tgts.drop (i * (n / k * t))).take (n / k * t)))).map
             fun (tr, va) => scriptOf (params.map fun f => f tr) (fun mdl => score mdl va)) = folds := by
-    rw [hvR, hvT, List.zip_map', List.zip_map', List.map_map]
-    apply List.map_congr_left
-    intro i hi
-    have hi' : i < k := List.mem_range.mp hi
-    simp only [Function.comp]
-    rw [List.getElem?_take_of_lt hi', List.getElem?_take_of_lt hi']
+    rw [List.zip_map', List.map_map]
+    rfl
   rw [hfolds] at hspec
   -- every fold succeeds with its score rows
   have hfold : ∀ i, i < k →
       cvFold (scriptOf (params.map fun f => f ((swapBlock recs i (n / k) p).drop (n / k * p), (swapBlock tgts i (n / k) t).drop (n / k * t)))
-        (fun mdl => score mdl (((chunks (n / k * p) recs)[i]?).getD [], ((chunks (n / k * t) tgts)[i]?).getD []))).1
+        (fun mdl => score mdl ((recs.drop (i * (n / k * p))).take (n / k * p), (tgts.drop (i * (n / k * t))).take (n / k * t)))).1
         (scriptOf (params.map fun f => f ((swapBlock recs i (n / k) p).drop (n / k * p), (swapBlock tgts i (n / k) t).drop (n / k * t)))
-        (fun mdl => score mdl (((chunks (n / k * p) recs)[i]?).getD [], ((chunks (n / k * t) tgts)[i]?).getD []))).2
+        (fun mdl => score mdl ((recs.drop (i * (n / k * p))).take (n / k * p), (tgts.drop (i * (n / k * t))).take (n / k * t)))).2
       = .ok ((List.range m).map (sc i)) := by
     intro i hi
     rw [← cvFoldM_script]
